@@ -201,7 +201,10 @@ def check_case(ctx, case):
                 # float accumulation can only matter when some number that went into the accumulated due time or
                 # tick time is not binary-exact: the tick period, or any period this tasker has been rescheduled
                 # with so far (a period changed by a bid leaves the earlier inexact sums in `retime`)
-                late = (got == exp + 1 and due == exp * Pf and inexact)
+                # ... and only for a period above the tick period: a tasker whose period equals the tick period adds the
+                # very same numbers to its due time as the skedder adds to its clock (the sums are equal), and with a smaller
+                # period the due time never gets ahead of the clock: such a tasker runs in every tick
+                late = (got == exp + 1 and due == exp * Pf and inexact and period > Pf)
                 key_ = ("decimal-period-late-by-one-tick/exact-coincidence" if late
                         else "run-%s-than-ideal" % ("later" if got > exp else "earlier"))
                 ctx.fail(key_, "%s (period %s, tick %s): run #%d at tick %d, ideal tick %d (due %s)" % (
